@@ -14,8 +14,8 @@ LEVEL_TEXT = {
  "C07": "Held-on-observed: after every heartbeat of generated streams fed through the standard loop, the bucket is compared with heartbeat_reduce of the prefix (real transform and integer reference) and the neighbouring buckets with their initial dump.",
  "C08": "Held-on-observed: monitor at the boundary of heartbeat_merge / heartbeat_reduce compares every call with an integer-microsecond restatement of the hull rule and the stated normal-form laws.",
  "C09": "Held-on-observed: monitors at filter_period_intersect / period_union compare each result with set-algebra over integer intervals (independent of the timeslot library).",
- "C10": "Held-on-observed: monitor at flood checks the stated cover laws (per-label cover kept, new cover == exactly the short gaps, output disjoint and positive) on generated sequences with gaps at pulsetime +-1 ms.",
- "C11": "Held-on-observed: generated ASTs are printed (twice, different spacing) and evaluated by the real interpreter; value AND the call trace recorded at the built-in registry are compared with a reference evaluator working on the AST.",
+ "C10": "Held-on-observed: monitor at flood checks the stated cover laws (per-label cover kept, new cover == exactly the short gaps, output disjoint and positive) on generated sequences with gaps at pulsetime +-1 ms and events that end between milliseconds.",
+ "C11": "Held-on-observed: generated ASTs are printed (twice, different spacing) and evaluated by the real interpreter; value AND the call trace recorded at the built-in registry are compared with a reference evaluator working on the AST; the recorder also compares the values handed to every built-in before and after the call.",
  "C12": "Held-on-observed: full dump of all buckets before/after every generated query (incl. failing and in-place-mutating ones) on each backend; query_bucket / eventcount results recorded at the registry compared with direct windowed reads.",
  "C13": "Held-on-observed; the millisecond floor is checked for ALL 10^6 microsecond values (exhaustive in that dimension) on several base instants/offsets and both input representations, plus random representations/durations/ids with schema validation and three rebuild paths.",
  "C14": "Held-on-observed: real legacy databases built by PeeweeStorage in a private XDG_DATA_HOME, migrated by constructing the default SqliteStorage; bucket sets, metadata, event multisets and the legacy file hash compared.",
@@ -28,7 +28,7 @@ LEVEL_TEXT = {
 }
 NOTE = {
  "C06": "Process death only (SIGKILL/_exit/exit); SQLite's own atomicity and the observer-connection view (validated by the real-crash tier) are trusted; no power-loss model.",
- "C18": "Same trusted base as C06; the pause is measured from the previous operation of any kind.",
+ "C18": "Same trusted base as C06; the age of a write is measured from the latest operation that may have flushed (an upper bound on the real last flush), and a late write - single event or batch - must be fully committed when its call returns.",
 }
 TECH = {
  "C01": "runtime monitoring: round-trip + aliasing oracle on real stores",
@@ -41,7 +41,7 @@ TECH = {
  "C08": "runtime monitoring: function-boundary monitor vs integer reference rule",
  "C09": "runtime monitoring: function-boundary monitor vs integer interval algebra",
  "C10": "runtime monitoring: function-boundary monitor vs interval cover laws",
- "C11": "runtime monitoring: registry call-trace recorder + reference evaluator + metamorphic spacing",
+ "C11": "runtime monitoring: registry call-trace recorder (incl. each built-in's arguments before/after the call) + reference evaluator + metamorphic spacing",
  "C12": "runtime monitoring: store dumps around queries + registry result recorder",
  "C13": "runtime monitoring: exhaustive microsecond sweep + randomized representation oracle + schema validation",
  "C14": "runtime monitoring: end-to-end migration in private XDG dirs, content and file-hash oracle",
